@@ -125,6 +125,7 @@ structure Req where
   down : Down := .plain
   outcome : Outcome := .ok     -- of the handler / controller method
   closeErr : Bool := false     -- `scope.Close()` returns an error
+  outer : Option Sid := none   -- the incoming request context already carries a scope (of somebody else)
   deriving DecidableEq, Repr, Inhabited
 
 /-! ## Events -/
@@ -329,7 +330,7 @@ def requestEnd (fw : Facts) (st : St) : St :=
 /-- one request through `[scope middleware →] handler`, starting from scope counter `base` with the
 scopes in `closed` already closed -/
 def runRequest (fw : Facts) (mw : List Stmt) (hp : List HStmt) (rq : Req) (base : Sid) (closed : List Sid := []) : St :=
-  let st0 : St := { nextSid := base, closed := closed }
+  let st0 : St := { nextSid := base, closed := closed, ctxScope := rq.outer }
   if !rq.installed then requestEnd fw (runDown hp rq st0)
   else
     let st := exec hp rq mw st0
